@@ -376,6 +376,34 @@ pub fn suite(prop: &str, tier: &str, _seed: u64) -> Report {
                 }
             }
         }
+        // bytes that collide with a blank or a line end when a bit is dropped (0x09/0x20/0x0a/0x0d +- 0x40, 0x80): every string of up to 3
+        {
+            let alpha2 = [b' ', b'\t', b'\r', b'\n', 0x60u8, 0x49, 0xa0, 0x89, 0x4a, 0x8a, 0x4d, 0x8d, 0x00, 0x0b, 0x0c, 0x1f, 0x21];
+            let mut level: Vec<Vec<u8>> = vec![vec![]];
+            for _ in 0..3 {
+                let mut next = vec![];
+                for s in &level {
+                    for &c in &alpha2 {
+                        let mut t = s.clone();
+                        t.push(c);
+                        next.push(t);
+                    }
+                }
+                for s in &next {
+                    rep.inputs += 1;
+                    for si in 0..SCANNERS.len() {
+                        for offset in 0..=s.len() {
+                            for &(pre, chunk, step) in &[(0usize, 1usize, 1usize), (s.len(), 16, 100)] {
+                                rep.runs += 1;
+                                let r = check_c16(si, s, offset, pre, chunk, step);
+                                fail(&mut rep, "c16", vec![si.to_string(), offset.to_string(), pre.to_string(), chunk.to_string(), step.to_string()], s, r);
+                            }
+                        }
+                    }
+                }
+                level = next;
+            }
+        }
         // the same scanners after a history of requests and advances (realigned buffers) and with interrupted reads
         let hn = if tier == "thorough" { 5 } else { 4 };
         for s in strings.iter().filter(|s| s.len() <= hn) {
@@ -452,7 +480,7 @@ pub fn suite(prop: &str, tier: &str, _seed: u64) -> Report {
             }
         }
     }
-    rep.bound = "scan: C16: every string of up to 5 (thorough: 6) bytes over {space, tab, CR, LF, a} x 8 scanners (tabs_or_spaces, newline, next_newline, fixed with 5 patterns) x every offset 0..len+1 x every amount of pre-buffered data x 3 refill schedules, delivered bytes counted with one byte per read; the strings of up to 4 (thorough: 5) bytes again after 8 histories (0..13 bytes requested and advanced over with chunk sizes 1..4 so that the buffer has been realigned, 0..3 bytes of extra look-ahead, every 2nd or 3rd read interrupted); C13: every string of up to 4 (thorough: 5) bytes over {0,1,2,5,7,8,9,-,x} for i8/u8/i16/u16 and the values within 11 of every MIN/MAX of the 12 integer types (plus x10, 128-bit limits, lone and double minus), zero padded by 0/1/7/8/20, with 5 suffixes and 3 prefixes, for all four scanners, 12 types, up to 10 amounts of buffered data around the 8-byte fast-path threshold; the reference value comes from the standard library's integer parser".to_string();
+    rep.bound = "scan: C16: every string of up to 5 (thorough: 6) bytes over {space, tab, CR, LF, a} x 8 scanners (tabs_or_spaces, newline, next_newline, fixed with 5 patterns) x every offset 0..len+1 x every amount of pre-buffered data x 3 refill schedules, delivered bytes counted with one byte per read; every string of up to 3 bytes over 17 bytes that alias a blank or a line end when a bit is dropped; the strings of up to 4 (thorough: 5) bytes again after 8 histories (0..13 bytes requested and advanced over with chunk sizes 1..4 so that the buffer has been realigned, 0..3 bytes of extra look-ahead, every 2nd or 3rd read interrupted); C13: every string of up to 4 (thorough: 5) bytes over {0,1,2,5,7,8,9,-,x} for i8/u8/i16/u16 and the values within 11 of every MIN/MAX of the 12 integer types (plus x10, 128-bit limits, lone and double minus), zero padded by 0/1/7/8/20, with 5 suffixes and 3 prefixes, for all four scanners, 12 types, up to 10 amounts of buffered data around the 8-byte fast-path threshold; the reference value comes from the standard library's integer parser".to_string();
     rep
 }
 pub fn replay(_prop: &str, args: &[String]) -> i32 {
